@@ -196,7 +196,8 @@ def run(ctx):
     ctx.log(f"{len(progs)} programs ({n_ex} from the enumeration of <= 3 statements)")
     wit, stats = spec_witnesses(ctx, [{"id": p["id"], "body": p["body"]} for p in progs])
     ctx.log(f"spec done: {stats}")
-    cov = action_coverage(ctx, progs[::max(1, len(progs) // 1200)])
+    # vacuity guard (extra TLC run with -coverage): thorough tier and selftest only
+    cov = None if ctx.quick else action_coverage(ctx, progs[::max(1, len(progs) // 1200)])
     results = replay_programs(progs)
     ctx.log("replay done")
     groups = {}
@@ -302,6 +303,8 @@ def selftest(ctx):
                 raise lib.Machinery("selftest: a rejection was allowed against an empty witness set")
     if min(flagged.values()) == 0:
         raise lib.Machinery(f"selftest: some corruption class was never flagged: {flagged}")
+    action_coverage(ctx, [{"id": p["id"], "body": p["body"]} for p in progs] +
+                    [{"id": 10_000 + i, "body": G.render(q)[1]} for i, q in enumerate(G.jump_family()[::9])])
     # corrupt the spec input: remove the assignment that makes a program fine -> witnesses must appear
     ok_prog = next(p for p in progs if not wit[p["id"]] and any(s["k"] == "use" for s in p["body"]))
     mutated = [s for s in ok_prog["body"] if s["k"] not in ("asg", "cpy", "for")]
